@@ -16,6 +16,7 @@ import (
 	"bytes"
 	"encoding/json"
 	"fmt"
+	"io"
 	"math"
 	"strings"
 	"testing"
@@ -88,8 +89,23 @@ func msgpRT[T any, P msgpPtr[T]](name string, v, other T, same func(a, b T) bool
 		if err := P(&dst2).DecodeMsg(msgp.NewReader(bytes.NewReader(buf.Bytes()))); err != nil || !same(dst2, v) {
 			return pbt.Failf("msgp:"+name, "%s: DecodeMsg(EncodeMsg(%v)) = %v, err %v", name, v, dst2, err)
 		}
+		// the stream decoder must not depend on how the source chunks its data: one byte per Read, and a small reader buffer
+		dst3 := other
+		if err := P(&dst3).DecodeMsg(msgp.NewReaderSize(oneByteReader{bytes.NewReader(buf.Bytes())}, 18)); err != nil || !same(dst3, v) {
+			return pbt.Failf("msgp-stream:"+name, "%s: DecodeMsg(EncodeMsg(%v)) through a reader that delivers one byte per Read = %v, err %v", name, v, dst3, err)
+		}
 		return nil
 	})
+}
+
+// oneByteReader delivers one byte per Read call.
+type oneByteReader struct{ r io.Reader }
+
+func (o oneByteReader) Read(p []byte) (int, error) {
+	if len(p) == 0 {
+		return 0, nil
+	}
+	return o.r.Read(p[:1])
 }
 
 type textPtr[T any] interface {
